@@ -1,6 +1,8 @@
 package checks
 
 import (
+	"path/filepath"
+	"os"
 	"fmt"
 	"sort"
 	"strings"
@@ -311,7 +313,59 @@ func tn(l int) string {
 	return "t" + itoa(l)
 }
 
+var c09FSDir string
+
+// c09FSChain: a chain served by the library's FilesystemLoader, whose ancestors are named in the ways a path may be
+// written (canonical, with ./, rooted, through .., with a doubled separator, assembled from a directory variable with
+// and without a trailing separator): every spelling that resolves to the file inside the root names the same parent.
+func c09FSChain(spell, via int) core.Result {
+	if c09FSDir == "" {
+		c09FSDir = filepath.Join(core.WorkDir, "c09fs")
+		if core.WorkDir == "" {
+			c09FSDir, _ = os.MkdirTemp("", "c09fs")
+		}
+		os.MkdirAll(filepath.Join(c09FSDir, "layouts"), 0o755)
+		os.MkdirAll(filepath.Join(c09FSDir, "pages"), 0o755)
+		os.WriteFile(filepath.Join(c09FSDir, "layouts", "root.twig"), []byte("R<{% block a %}ra{% endblock %}|{% block b %}rb{% endblock %}>"), 0o644)
+		os.WriteFile(filepath.Join(c09FSDir, "layouts", "blocks.twig"), []byte("{% block b %}ub[{{ parent() }}]{% endblock %}"), 0o644)
+		os.WriteFile(filepath.Join(c09FSDir, "layouts", "part.twig"), []byte("(part)"), 0o644)
+	}
+	ref := func(file string) string {
+		return []string{"'layouts/" + file + "'", "'./layouts/" + file + "'", "'/layouts/" + file + "'", "'pages/../layouts/" + file + "'", "'layouts//" + file + "'",
+			"d1 ~ '/" + file + "'", "d2 ~ '" + file + "'", "d3 ~ '/" + file + "'", "whole_" + strings.TrimSuffix(file, ".twig")}[spell]
+	}
+	mid := "{% extends " + ref("root.twig") + " %}{% block a %}ma[{{ parent() }}]{% endblock %}"
+	want := "R<la[ma[ra]]|rb>"
+	switch via {
+	case 1: // the middle template also imports blocks with use
+		mid = "{% extends " + ref("root.twig") + " %}{% use " + ref("blocks.twig") + " %}{% block a %}ma[{{ parent() }}]{% endblock %}"
+		want = "R<la[ma[ra]]|ub[rb]>"
+	case 2: // ... and includes a partial
+		mid = "{% extends " + ref("root.twig") + " %}{% block a %}ma[{{ parent() }}]{% include " + ref("part.twig") + " %}{% endblock %}"
+		want = "R<la[ma[ra](part)]|rb>"
+	}
+	if via == 1 && spell >= 5 {
+		return core.Skipped("use-takes-a-literal-name")
+	}
+	os.WriteFile(filepath.Join(c09FSDir, "layouts", "mid.twig"), []byte(mid), 0o644)
+	os.WriteFile(filepath.Join(c09FSDir, "pages", "leaf.twig"), []byte("{% extends "+ref("mid.twig")+" %}{% block a %}la[{{ parent() }}]{% endblock %}"), 0o644)
+	env := stick.New(stick.NewFilesystemLoader(c09FSDir))
+	ctx := map[string]stick.Value{"d1": "layouts", "d2": "layouts/", "d3": "./layouts", "whole_root": "./layouts/root.twig", "whole_mid": "pages/../layouts/mid.twig", "whole_blocks": "layouts/blocks.twig", "whole_part": "/layouts/part.twig"}
+	out, err, pan := tryExec(env, "pages/leaf.twig", ctx)
+	desc := fmt.Sprintf("filesystem loader: pages/leaf.twig extends %s, which is %q", ref("mid.twig"), mid)
+	if pan != "" || err != nil {
+		return core.Violation("error", fmt.Sprintf("%s: %v %s (want %q)", desc, err, pan, want))
+	}
+	if out != want {
+		return core.Violation("resolution", fmt.Sprintf("%s: renders %q, want %q", desc, out, want))
+	}
+	return core.Okay(true, out)
+}
+
 func c09Run(c core.Case) core.Result {
+	if c.Fam == "fschain" {
+		return c09FSChain(c.N[0], c.N[1])
+	}
 	c09NameStyle = c.N[5] >> 2 & 1
 	usedParent, rootParent, embedIn := c.N[5]>>3&1 == 1, c.N[5]>>4&1 == 1, c.N[5]>>5&1 == 1
 	c.N = append([]int{}, c.N...)
@@ -480,6 +534,13 @@ func c09Gen(maxL, nNames, pforms int, emit func(core.Case)) {
 
 func c09Levels(tier string) []core.Level {
 	lv := []core.Level{
+		{Name: "a chain of three served by the FilesystemLoader, the ancestors (and a used template, an included partial) named in 9 spellings of the same path (canonical, ./, rooted, through .., doubled separator, directory variable with / without trailing separator or ./, a whole name in a variable)", Gen: func(emit func(core.Case)) {
+			for spell := 0; spell < 9; spell++ {
+				for via := 0; via < 3; via++ {
+					emit(core.Case{Fam: "fschain", N: []int{spell, via}})
+				}
+			}
+		}},
 		{Name: "chains of 1..4 templates x 2 block names x {absent, override, override+parent()} per level x 3 root layouts x 3 parent-reference forms x use (none / plain / aliased / three aliases in one tag, at every level) x block()", Gen: func(emit func(core.Case)) { c09Gen(4, 2, 4, emit) }},
 	}
 	if thorough(tier) {
